@@ -220,6 +220,8 @@ def run(ctx):
         "append_only_no_destruction needs the premise hotcold_missing_only for repair_hotcold / repair_hotcold_packs: the copied names are missing in the part written to (the commands have no append-only guard)",
         "key and config files are outside the property's file classes (delete_key has no guard; apply_config with set_append_only=false is the allowed way out)",
         "warm-up commands and the local cache are not modelled",
+        "stored vs. handle config: a storage fault hits at most one config write of apply_config (nothing stored / stored then failure / stored but error reported); handles other than the one running the command are not covered (a handle opened earlier keeps its old config; a fresh handle of a hot/cold repository reads the hot copy - open finding hotcold-config-diverged-fresh-handle)",
+        "Indexer model: pack adds carry only their blob count; MAX_AGE is an environment choice (`aged`); Packer-side buffering is not modelled (TreeModifier / Rewriter dry-run plumbing is verified syntactically by the extractor)",
     ]
     try:
         model = vlib.build_model("C15")
@@ -353,6 +355,13 @@ def run(ctx):
                         mism.append(("effect class %s not in the model's table" % c, il[si], ps, mparts[k], k))
                     else:
                         seen_model_cls.setdefault(name, set()).add(c.rsplit(":", 1)[0] if c.startswith("W:") else c)
+            # the indexer's self-save threshold, observed: a backup of 60 000 + a few blobs writes as many
+            # index files as the extracted Indexer model (MAX_COUNT from the source) predicts
+            if model and o[0] == "bigbackup" and not o[2] and res == "ok" and k == 0:
+                pred = int(run_lines(model, ["61 " + " ".join(["1000"] * 60) + " 3 1"], "ix", "ix")[0])
+                cov["indexer_files_predicted_vs_observed"] = [pred, cls.get("W:index:new", 0)]
+                if pred != cls.get("W:index:new", 0):
+                    mism.append(("index files written by a backup of 60 000 blobs (Indexer model predicts %d)" % pred, il[si], ps, "ix_run", k))
             if len(samples) < 6 and ao and (res == "refused" or cls) and name not in [s["op"][0] for s in samples]:
                 samples.append({"op": list(o), "impl": ps, "model": mparts[k]})
     cov.update({
